@@ -16,12 +16,29 @@ shape, column labels, frame condition, documented effect inside the window,
 swap twice = identity, label swap involution, weights handed to the generator,
 input object bit-for-bit unchanged).
 
+Histories ("<Injector>|hist|..." tasks): every ordered pair (thorough: also every
+triple on the ndarray data set) of calls from a per-injector menu — containers and
+data sets, windows of equal and different length, columns / classes, seeded and
+unseeded calls, documented rejections — made by ONE injector object or by fresh
+objects, all inside one execution, every call judged by the complete oracle.
+
+Isolation: whatever menelaus.injection keeps at process level (class attributes,
+module globals, mutable default arguments, function attributes, functools caches)
+is put back to its imported value at the start of every execution, and numpy's
+global generator is seeded before every call, so an execution is a function of its
+event alone and every violation replays in a fresh process; state carried from one
+call to the next is what the history families explore.
+
 Every execution is one step of a one-step System (the event is the complete
-call description), so artefacts replay generically with ``./check C20 --replay``.
+call description, for a history including the earlier calls), so artefacts replay
+generically with ``./check C20 --replay``.
 """
+import copy
 import itertools
 import math
+import sys
 import time
+import types
 from contextlib import contextmanager
 
 import numpy as np
@@ -39,6 +56,7 @@ from menelaus.injection import (
 )
 
 from mc.explorer import Ctx, HarnessError, System, Violation, artefact, jsonable, run_path, _same
+from mc.canon import canon
 from mc.rng import derive
 from models import injectors as M
 
@@ -205,12 +223,12 @@ class OwnedRng:
     answers from a script of option numbers (missing entries = option 0).  ``trace``
     lists [chosen option, number of options] per choice point."""
 
-    def __init__(self, answers, vec_cap, perm_cap, real=False):
+    def __init__(self, answers, vec_cap, perm_cap, real=False, trace=None):
         self.real = real  # True: numpy's own generator is left in place (explicit random_state)
         self.answers = list(answers or [])
-        self.vec_cap = vec_cap
-        self.perm_cap = perm_cap
-        self.trace = []
+        self.vec_cap = vec_cap  # 0: one fixed answer vector per resample / Dirichlet draw (history families)
+        self.perm_cap = perm_cap  # 0: one fixed ordered sample per group
+        self.trace = [] if trace is None else trace  # shared by the calls of one history: one script per execution
         self.calls = []
         self.capped = 0
 
@@ -252,7 +270,7 @@ class OwnedRng:
                 pos = [support[self.pick(m)] for _ in range(w)]
             else:
                 self.capped += 1
-                menu = vec_menu(m, w)
+                menu = vec_menu(m, w) if self.vec_cap else [[i % m for i in range(w)]]
                 pos = [support[q] for q in menu[self.pick(len(menu))]]
         else:
             if w > n:
@@ -262,7 +280,7 @@ class OwnedRng:
                 pos = [rest.pop(self.pick(len(rest))) for _ in range(w)]
             else:
                 self.capped += 1
-                menu = perm_menu(n, w)
+                menu = perm_menu(n, w) if self.perm_cap else perm_menu(n, w)[-1:]
                 pos = menu[self.pick(len(menu))]
         call["pos"] = pos
         return arr[np.asarray(pos, dtype=np.intp)]
@@ -270,15 +288,23 @@ class OwnedRng:
     def dirichlet(self, alpha, size=None):
         al = [float(x) for x in np.asarray(alpha, dtype=float).ravel()]
         menu = DIRICHLET_MENU.get(len(al)) or [[1.0 / len(al)] * len(al)]
+        if not self.vec_cap:
+            menu = menu[1:2] or menu  # history families: one answer with unequal components
         v = menu[self.pick(len(menu))]
         self.calls.append({"fn": "dirichlet", "alpha": al, "ret": list(v)})
         return np.array(v, dtype=float)
 
 
+GLOBAL_SEED = [derive(0, "C20", "global-state")]
+
+
 @contextmanager
 def owned_rng(rng):
+    """numpy.random.choice / dirichlet answered by ``rng``; numpy's global generator is put into the same state
+    (a function of VERIF_SEED only, BUILDING.md "own randomness") before and after every call into menelaus, so
+    nothing an injector does to it (numpy.random.seed(random_state)) or draws from it directly reaches another call."""
     saved = (np.random.choice, np.random.dirichlet)
-    state = np.random.get_state()
+    np.random.seed(GLOBAL_SEED[0])
     if not rng.real:
         np.random.choice = rng.choice
         np.random.dirichlet = rng.dirichlet
@@ -286,7 +312,145 @@ def owned_rng(rng):
         yield
     finally:
         np.random.choice, np.random.dirichlet = saved
-        np.random.set_state(state)
+        np.random.seed(GLOBAL_SEED[0])
+
+
+# ------------------------------------------------------------------ process-level state of the code under test
+_PLAIN = (int, float, complex, str, bytes, bool, type(None))
+_CODE_TYPES = (types.FunctionType, types.BuiltinFunctionType, types.MethodType, types.ModuleType, type,
+               staticmethod, classmethod, property)
+
+
+def _functions_of(owner):
+    for name, v in list(vars(owner).items()):
+        if isinstance(v, (staticmethod, classmethod)):
+            v = v.__func__
+        elif isinstance(v, property):
+            v = v.fget
+        if isinstance(v, types.FunctionType) and (v.__module__ or "").startswith("menelaus.injection"):
+            yield v
+        elif callable(getattr(v, "cache_clear", None)):  # functools.lru_cache / functools.cache wrappers
+            yield v
+
+
+class ProcessState:
+    """Everything the modules of menelaus.injection keep at process level — module globals, class attributes,
+    mutable default arguments, function attributes, functools caches — as it was right after import.
+
+    An execution of this check is meant to be a function of its event alone (that is what makes a violation
+    replayable in another process).  Code under test that remembers something outside the injector object
+    (a class-level cache, a module-level counter, a mutable default argument) breaks that: what an execution sees
+    would depend on which executions the worker process happened to run before.  ``restore()`` is therefore called
+    at the start of every execution and puts that state back to its imported value; the behaviour *across calls*
+    is explored deliberately by the history families, where all calls of a history run inside one execution."""
+
+    def __init__(self):
+        mods = [m for n, m in sorted(sys.modules.items())
+                if (n == "menelaus.injection" or n.startswith("menelaus.injection.")) and m is not None]
+        owners = list(mods)
+        for m in mods:
+            for v in vars(m).values():
+                if isinstance(v, type) and (v.__module__ or "").startswith("menelaus.injection") and v not in owners:
+                    owners.append(v)
+        self.owners = []
+        for o in owners:
+            shallow = dict(vars(o))
+            data = {}
+            for name, v in shallow.items():
+                if name.startswith("__") or name.startswith("_abc_") or isinstance(v, _CODE_TYPES):
+                    continue
+                if callable(getattr(v, "cache_clear", None)):
+                    continue
+                try:
+                    data[name] = (copy.deepcopy(v), canon(v))
+                except Exception:  # noqa: BLE001 - something that cannot be copied is left alone
+                    pass
+            self.owners.append((o, shallow, data))
+        self.functions = []
+        seen = set()
+        for o in owners:
+            for fn in _functions_of(o):
+                if id(fn) in seen:
+                    continue
+                seen.add(id(fn))
+                if isinstance(fn, types.FunctionType):
+                    try:
+                        rec = {"fn": fn, "attrs": copy.deepcopy(dict(fn.__dict__))}
+                        for slot in ("__defaults__", "__kwdefaults__"):
+                            v = getattr(fn, slot)
+                            vals = list(v.values()) if isinstance(v, dict) else list(v or ())
+                            rec[slot] = {"live": v, "copy": copy.deepcopy(v), "canon": canon(v),
+                                         "plain": all(isinstance(x, _PLAIN) for x in vals)}
+                        self.functions.append(rec)
+                    except Exception:  # noqa: BLE001
+                        pass
+                else:
+                    self.functions.append({"fn": fn, "cache": True})
+
+    def restore(self):
+        """-> number of items that had to be put back."""
+        n = 0
+        for o, shallow, data in self.owners:
+            cur = vars(o)
+            if len(cur) != len(shallow) or any(k not in shallow for k in cur):
+                for k in [k for k in cur if k not in shallow]:
+                    try:
+                        delattr(o, k)
+                        n += 1
+                    except Exception:  # noqa: BLE001
+                        pass
+            for k, v in shallow.items():
+                c = cur.get(k, _CODE_TYPES)
+                if k in data:
+                    try:
+                        same = canon(c) == data[k][1]
+                    except Exception:  # noqa: BLE001
+                        same = False
+                    if not same:
+                        setattr(o, k, copy.deepcopy(data[k][0]))
+                        n += 1
+                elif c is not v and not (k.startswith("__") or k.startswith("_abc_")):
+                    try:
+                        setattr(o, k, v)
+                        n += 1
+                    except Exception:  # noqa: BLE001
+                        pass
+        for rec in self.functions:
+            fn = rec["fn"]
+            if rec.get("cache"):
+                try:
+                    if fn.cache_info().currsize:
+                        fn.cache_clear()
+                        n += 1
+                except Exception:  # noqa: BLE001
+                    pass
+                continue
+            for slot in ("__defaults__", "__kwdefaults__"):
+                r = rec[slot]
+                v = getattr(fn, slot)
+                if v is r["live"] and r["plain"]:
+                    continue  # the very same tuple / dict of immutable values
+                try:
+                    same = canon(v) == r["canon"]
+                except Exception:  # noqa: BLE001
+                    same = False
+                if not same:
+                    setattr(fn, slot, copy.deepcopy(r["copy"]))
+                    r["live"] = getattr(fn, slot)
+                    n += 1
+            if fn.__dict__ or rec["attrs"]:
+                try:
+                    same = canon(dict(fn.__dict__)) == canon(rec["attrs"])
+                except Exception:  # noqa: BLE001
+                    same = False
+                if not same:
+                    fn.__dict__.clear()
+                    fn.__dict__.update(copy.deepcopy(rec["attrs"]))
+                    n += 1
+        return n
+
+
+PROCESS_STATE = ProcessState()
 
 
 # ------------------------------------------------------------------ the system
@@ -413,28 +577,74 @@ class InjectorSystem(System):
             except Exception as e:  # noqa: BLE001 - classified by the oracle
                 return None, e
 
-    # -- the step
+    # -- the step: one execution = one call, or one history of calls (ev["hist"] = the earlier calls, in order)
     def step(self, cfg, state, ev, pos, ctx):
+        GLOBAL_SEED[0] = derive(ctx.seed, "C20", "global-state")
+        if PROCESS_STATE.restore():
+            ctx.count("note_process_level_state_put_back")  # the code under test keeps something outside its objects
+        trace = []
+        self.last_trace = trace
+        self.last_capped = 0
+        hist = ev.get("hist") or []
+        if not hist:
+            obs = self.one_call(ev, ev, self.cls(), ctx, trace, "")
+            obs["rng_trace"] = trace
+            return obs
+        calls = list(hist) + [ev]
+        ctx.count("hist_executions")
+        ctx.count("hist_fresh_objects" if ev.get("fresh") else "hist_same_object")
+        ctx.count("hist_depth_%d" % len(calls))
+        self.count_history(ev, calls, ctx)
+        inj, seen = None, []
+        for i, c in enumerate(calls):
+            if inj is None or ev.get("fresh"):
+                inj = self.cls()
+            o = self.one_call(c, ev, inj, ctx, trace, "call %d of %d in a history on %s: " % (
+                i + 1, len(calls), "fresh injector objects" if ev.get("fresh") else "one injector object"))
+            if i and o["outcome"] == "ok" and seen[-1]["outcome"] != "ok":
+                ctx.count("hist_call_after_rejected_call")
+            seen.append(o)
+        obs = seen[-1]
+        obs["hist"] = seen[:-1]
+        obs["rng_trace"] = trace
+        return obs
+
+    def count_history(self, ev, calls, ctx):
+        cts = {c["data"]["ct"] for c in calls}
+        if len(cts) > 1:
+            ctx.count("hist_containers_mixed")
+        core = [(c["data"], c["f"], c["t"], c["args"]) for c in calls]
+        if any(a == b for a, b in zip(core, core[1:])):
+            ctx.count("hist_identical_consecutive_calls")
+        if self.name in ("BrownianNoiseInjector", "FeatureCoverInjector"):
+            keys = [(c["t"] - c["f"] if self.name == "BrownianNoiseInjector" else None, c["args"].get("rs")) for c in calls]
+            seeded = [k for k in keys if k[1] is not None]
+            if len(seeded) != len(set(seeded)):
+                ctx.count("hist_seed_repeated" + ("_same_length" if self.name == "BrownianNoiseInjector" else ""))
+            if seeded and len(seeded) < len(keys):
+                ctx.count("hist_seeded_and_unseeded_calls")
+
+    def one_call(self, ev, top, inj, ctx, trace, where):
+        """One injector call with the complete oracle.  ``top`` = the event of the execution (caps, script)."""
         spec = ev["data"]
         ct, n, k, lc = spec["ct"], spec["n"], spec["k"], spec["lc"]
         f, t = ev["f"], ev["t"]
         obj, rows, labels, kinds, snap = self.data(spec)
-        inj = self.cls()
         if ev.get("prime"):
             self.prime(inj, ct, labels)
             ctx.count("primed_calls")
         real = ev["args"].get("rs") is not None
-        caps = tuple(ev.get("caps") or self.caps)
-        rng = OwnedRng(ev.get("rng"), *caps, real=real)
-        self.last_trace = rng.trace
+        caps = tuple(top.get("caps") or self.caps)
+        rng = OwnedRng(top.get("rng"), *caps, real=real, trace=trace)
+        t0 = len(trace)
         call = self.bind(inj, ev, labels, kinds)
         out, exc = self.run_call(call, obj, rng)
-        self.last_capped = rng.capped
+        self.last_capped += rng.capped
         if self.name == "LabelProbabilityInjector" and list(self.last_request.items()) != [
                 (cls_value(kinds[lc], k_), v_) for k_, v_ in ev["args"]["probs"]]:
             ctx.count("note_c15_class_probabilities_dict_written")  # C15's business, only counted here
         wk = window_kind(f, t, n) if self.name != "FeatureCoverInjector" else "none"
-        desc = "%s on %s %dx%d window [%d,%d) args %r" % (self.name, ct, n, k, f, t, ev["args"])
+        desc = "%s%s on %s %dx%d window [%d,%d) args %r" % (where, self.name, ct, n, k, f, t, ev["args"])
 
         # the caller's object is untouched, whatever happened
         if snapshot(obj) != snap:
@@ -446,11 +656,11 @@ class InjectorSystem(System):
         ctx.count("container_" + ct)
         if wk != "none":
             ctx.count("windows_" + wk)
-        if rng.trace:
+        if len(trace) > t0:
             ctx.count("rng_answers_enumerated")
-            ctx.count("rng_choice_points", len(rng.trace))
+            ctx.count("rng_choice_points", len(trace) - t0)
 
-        obs = {"outcome": "ok", "rng_trace": rng.trace}
+        obs = {"outcome": "ok"}
         if exc is not None:
             obs["outcome"] = "raised %s" % type(exc).__name__
             if self.allowed_rejection(ev, rows, exc, ctx):
@@ -681,7 +891,8 @@ class InjectorSystem(System):
                 desc, request, err,
                 " [un-listed class(es) %r occur only outside the window]" % (outside_only,) if narrow else ""),
                 expected=request, observed={"candidates": d["a"], "weights": d["p"]},
-                sig="resample-distribution" + (":unlisted-class-only-outside-window" if narrow else ""))
+                sig="resample-distribution" + (":unlisted-class-only-outside-window" if narrow else
+                                               ":listed-class-absent-from-window" if info["absent_rule"] else ""))
         if not d["replace"]:
             raise Violation("resample-distribution", "%s: rows are drawn without replacement" % desc,
                             expected="replace=True", observed="replace=False")
@@ -690,6 +901,12 @@ class InjectorSystem(System):
             raise Violation("effect-" + self.name, "%s: %s" % (desc, err), expected=rows, observed=orows)
         if info["listed_absent"]:
             ctx.count("absent_class_cases")
+            if info["absent_rule"]:
+                ctx.count("prob_absent_listed_rule_checked")
+                if info["absent_mass"] > 0:
+                    ctx.count("prob_absent_listed_positive_mass")
+                    if info["absent_rule_readings_differ"]:
+                        ctx.count("prob_absent_listed_unequal_class_sizes")
         elif info["satisfiable"]:
             ctx.count("prob_mass_checked")
             if info["all_in_window"]:
@@ -731,7 +948,13 @@ PROBS = [
     [[0, 0.0], [1, 0.5]],
     [[0, 0.75], [1, 0.5]],  # exceeds 1  -> documented ValueError
     [[3, 0.5]],  # class not in the data -> documented ValueError
+    # three listed classes with pairwise different probabilities / a partial vector: whichever listed class is missing
+    # from the window, the classes that remain were asked for DIFFERENT probabilities and an un-listed class may
+    # remain too, so "divide the missing probability uniformly" differs from re-normalising the request
+    [[0, 0.125], [1, 0.5], [2, 0.375]],
+    [[1, 0.5], [2, 0.25]],
 ]
+PROBS_EVERYWHERE = 8  # the vectors from this position on are used only for windows that lack one of their classes
 ALPHAS = [
     [[0, 1], [1, 1]],
     [[0, 4], [1, 1], [2, 1]],
@@ -769,8 +992,103 @@ def numeric_cols(kinds):
     return [j for j, kd in enumerate(kinds) if kd != "s"]
 
 
+# ------------------------------------------------------------------ histories of calls
+HIST_N = 4
+# label vectors: ndarray data sets / DataFrame data sets (another data set, not only another container): windows
+# [0,2) and [2,4) hold two classes or one (a third / the others outside), [1,4) all three or two
+HIST_LAB = {"nd": [0, 1, 2, 0], "df": [2, 0, 1, 1]}
+HIST_WINDOWS = [(0, 0), (0, 2), (2, 4), (1, 4), (0, 4)]  # empty, two windows of the same length, a longer one, the full one
+HIST_WINDOWS_NOISE = [(0, 0), (0, 2), (2, 4), (0, 3), (1, 4)]  # lengths 0, 2, 2, 3, 3
+HIST_CAPS = (0, 0)  # one scripted answer per resample / group sample / Dirichlet draw; +-1 steps fully enumerated
+# (container, columns, label column, cell pattern) of the data sets the calls of a history are made on; the first one
+# is the ndarray that histories of three calls (thorough) are restricted to
+HIST_SPECS = {
+    "BrownianNoiseInjector": [("nd_float", 3, 2, 0), ("df_float", 3, 2, 1)],
+    "FeatureShiftInjector": [("nd_float", 3, 2, 0), ("df_float", 3, 2, 1), ("nd_int", 3, 2, 1)],
+    "FeatureSwapInjector": [("nd_float", 3, 2, 0), ("df_mixed", 3, 0, 0)],
+    "FeatureCoverInjector": [("nd_float", 3, 2, 0), ("df_float", 3, 2, 0)],
+    "LabelSwapInjector": [("nd_float", 3, 2, 0), ("df_strlab", 2, 1, 0)],
+    "LabelJoinInjector": [("nd_float", 3, 2, 0), ("df_strlab", 2, 1, 0)],
+    "LabelProbabilityInjector": [("nd_float", 3, 2, 0), ("df_float", 3, 2, 0)],
+    "LabelDirichletInjector": [("nd_float", 3, 2, 0), ("df_float", 3, 2, 0)],
+}
+HIST_THOROUGH_EXTRA = {"BrownianNoiseInjector": [("df_mixed", 3, 0, 0)], "LabelProbabilityInjector": [("df_mixed", 3, 0, 0)]}
+
+
+def hist_seeds(seed):
+    r1 = 1 + derive(seed, "rs", "hist") % 1000
+    return r1, r1 + 1
+
+
+def hist_args(inj, seed):
+    """-> (windows, argument dicts) of the menu of calls of one injector."""
+    r1, r2 = hist_seeds(seed)
+    if inj == "BrownianNoiseInjector":
+        return HIST_WINDOWS_NOISE, [{"col": c, "x0": x0, "rs": rs} for c, x0 in ((0, 2), (1, -0.5)) for rs in (None, r1, r2)]
+    if inj == "FeatureShiftInjector":
+        return HIST_WINDOWS, [{"col": 0, "sf": -1, "alpha": None}, {"col": 1, "sf": 0.5, "alpha": 0.25}]
+    if inj == "FeatureSwapInjector":
+        return HIST_WINDOWS, [{"c1": 0, "c2": 1}, {"c1": 1, "c2": 2}, {"c1": 2, "c2": 0}]
+    if inj == "FeatureCoverInjector":  # sample sizes: one row per group / a documented rejection (group too small)
+        return [(0, HIST_N)], [{"col": c, "ss": ss, "rs": rs} for c in ("lc", "other") for ss in (3, 4, 6) for rs in (None, r1)]
+    if inj == "LabelSwapInjector":
+        return HIST_WINDOWS, [{"a": 0, "b": 1}, {"a": 1, "b": 2}, {"a": 0, "b": 3}]
+    if inj == "LabelJoinInjector":
+        return HIST_WINDOWS, [{"a": 0, "b": 1, "new": 5}, {"a": 1, "b": 2, "new": 5}, {"a": 0, "b": 3, "new": 0}]
+    if inj == "LabelProbabilityInjector":
+        return HIST_WINDOWS, [{"probs": PROBS[i]} for i in (0, 3, 6, 9)]  # partial, full, rejected, partial with 3 classes
+    if inj == "LabelDirichletInjector":
+        return HIST_WINDOWS, [{"alpha": ALPHAS[i]} for i in (0, 5, 3)]  # two classes, three classes unsorted, rejected
+    raise HarnessError("unknown injector " + inj)
+
+
+def hist_menu(inj, seed, tier, first_only=False):
+    specs = list(HIST_SPECS[inj]) + (HIST_THOROUGH_EXTRA.get(inj, []) if tier == "thorough" else [])
+    if first_only:
+        specs = specs[:1]
+    wins, args = hist_args(inj, seed)
+    menu = []
+    for ct, k, lc, pat in specs:
+        sp = {"ct": ct, "n": HIST_N, "k": k, "lc": lc, "lab": list(HIST_LAB[ct[:2]]), "pat": pat}
+        other = [j for j in range(k) if j != lc][0]
+        for f, t in wins:
+            for a in args:
+                a = dict(a)
+                if inj == "FeatureCoverInjector":
+                    a["col"] = lc if a["col"] == "lc" else other
+                if inj == "FeatureSwapInjector" and max(a["c1"], a["c2"]) >= k:
+                    continue
+                if inj in ("BrownianNoiseInjector", "FeatureShiftInjector") and col_kinds(ct, k, lc)[a["col"]] == "s":
+                    continue
+                menu.append({"data": sp, "f": f, "t": t, "args": a})
+    return menu
+
+
+def hist_events(cfg, seed):
+    """All ordered pairs (depth 3: triples) of calls of the menu.  sharing 'same': one injector object makes all
+    calls of the history; 'fresh': every call gets a new object (what is left is process-level state)."""
+    inj, depth, sharing = cfg["inj"], cfg["depth"], cfg["sharing"]
+    menu = hist_menu(inj, seed, cfg["tier"], first_only=cfg.get("first_only", False))
+    if sharing == "fresh":
+        menu = [c for c in menu if c["data"]["ct"].startswith("nd")] if depth == 2 else menu
+    chunk, nchunks = cfg.get("chunk", 0), cfg.get("nchunks", 1)
+    for i, first in enumerate(menu):
+        if i % nchunks != chunk:
+            continue
+        for rest in itertools.product(menu, repeat=depth - 1):
+            calls = [first] + list(rest)
+            e = dict(calls[-1])
+            e["hist"] = calls[:-1]
+            if sharing == "fresh":
+                e["fresh"] = True
+            yield e
+
+
 def calls_for(cfg, seed):
     """Generator of events (without the RNG script) for one task."""
+    if cfg.get("fam") == "hist":
+        yield from hist_events(cfg, seed)
+        return
     inj, ct, n, k, lc = cfg["inj"], cfg["ct"], cfg["n"], cfg["k"], cfg["lc"]
     chunk, nchunks = cfg.get("chunk", 0), cfg.get("nchunks", 1)
     kinds = col_kinds(ct, k, lc)
@@ -853,7 +1171,9 @@ def calls_for(cfg, seed):
         for lab in labs:
             sp = spec(lab, 0)
             for f, t in windows(n):
-                for probs in PROBS:
+                for q, probs in enumerate(PROBS):
+                    if q >= PROBS_EVERYWHERE and not any(c in lab and c not in lab[f:t] for c, _ in probs):
+                        continue  # these vectors only where a listed class of the data is missing from the window
                     for pr in primes(f, t):
                         yield ev(sp, f, t, {"probs": probs}, pr)
     elif inj == "LabelDirichletInjector":
@@ -881,6 +1201,7 @@ def enumerate_task(task, seed):
     cfg = task["cfg"]
     system = SYSTEMS[cfg["inj"]]
     system.caps = tuple(task["caps"])
+    ev_caps = list(HIST_CAPS if cfg.get("fam") == "hist" else system.caps)
     ctx = Ctx(seed)
     st = ctx.stats
     violations, samples = [], []
@@ -890,7 +1211,7 @@ def enumerate_task(task, seed):
         script = []
         while script is not None:
             ev = dict(base)
-            ev["caps"] = list(system.caps)  # the meaning of the script depends on the caps: keep events self-contained
+            ev["caps"] = list(ev_caps)  # the meaning of the script depends on the caps: keep events self-contained
             if script:
                 ev["rng"] = list(script)
             ctx.marks = 0
@@ -1002,6 +1323,35 @@ def tasks(tier, seed):
                             "label": cid,
                             "cost": est / nch,
                         })
+    out.extend(hist_tasks(tier, seed))
+    return out
+
+
+# two-call executions per second of one worker, very roughly (ndarray / DataFrame mix), to size the history tasks
+HIST_MS = {"BrownianNoiseInjector": 2.5, "LabelProbabilityInjector": 2.5, "LabelDirichletInjector": 2.5,
+           "FeatureCoverInjector": 6.0}
+
+
+def hist_tasks(tier, seed):
+    """History families: label '<Injector>|hist|<sharing>|d<depth>|chunk'."""
+    out = []
+    for inj in INJECTORS:
+        fams = [("same", 2, False), ("fresh", 2, False)]
+        if tier == "thorough":
+            fams += [("same", 3, True), ("fresh", 3, True)]
+        for sharing, depth, first_only in fams:
+            cfg = {"inj": inj, "fam": "hist", "tier": tier, "depth": depth, "sharing": sharing, "first_only": first_only}
+            m = len(hist_menu(inj, seed, tier, first_only))
+            if sharing == "fresh" and depth == 2:
+                m = sum(1 for c in hist_menu(inj, seed, tier) if c["data"]["ct"].startswith("nd"))
+            est = (m ** depth) * HIST_MS.get(inj, 1.5) / 1000.0
+            if depth > 2 and inj == "BrownianNoiseInjector":
+                est *= 3  # unseeded walks: the answer scripts of three calls multiply
+            nch = max(1, min(m, int(math.ceil(est / (4.0 if tier == "quick" else 20.0)))))
+            for ch in range(nch):
+                cid = "%s|hist|%s|d%d|%d/%d" % (inj, sharing, depth, ch, nch)
+                out.append({"fn": "enumerate_task", "system": inj, "caps": list(HIST_CAPS),
+                            "cfg": dict(cfg, id=cid, chunk=ch, nchunks=nch), "label": cid, "cost": est / nch})
     return out
 
 
@@ -1011,7 +1361,14 @@ REQUIRED = (
      "walk_down_steps", "twice-restores_checked", "involution_checked", "prob_mass_checked",
      "prob_all_classes_in_window", "prob_full_vector", "prob_partial_vector", "prob_zero_weight_rows",
      "dirichlet_draws", "primed_calls", "real_rng_calls", "equal_column_pairs", "equal_class_pairs",
-     "shift_nonzero", "effect_visible"]
+     "shift_nonzero", "effect_visible",
+     # a listed class missing from the window: the documented redistribution was checked, with a positive probability
+     # to redistribute, and for windows whose classes have different sizes
+     "prob_absent_listed_rule_checked", "prob_absent_listed_positive_mass", "prob_absent_listed_unequal_class_sizes",
+     # histories of calls (none of these depends on VERIF_SEED: the seeds handed to the injectors only have to differ)
+     "hist_executions", "hist_same_object", "hist_fresh_objects", "hist_containers_mixed",
+     "hist_identical_consecutive_calls", "hist_seed_repeated", "hist_seed_repeated_same_length",
+     "hist_seeded_and_unseeded_calls", "hist_call_after_rejected_call"]
     + ["container_" + c for c in CONTAINERS]
     + ["injector_" + i for i in INJECTORS]
 )
@@ -1027,7 +1384,10 @@ def describe(tier):
         "over the script: all +-1 walks, all index vectors of a resample while |support|^window <= cap, all ordered "
         "samples of a group while their number <= cap, a fixed menu beyond the caps and for Dirichlet draws); an "
         "execution is non-trivial when the result differs from the input or a documented rejection occurred; "
-        "executions are distinct by construction (distinct call descriptions or distinct answer scripts)",
+        "executions are distinct by construction (distinct call descriptions or distinct answer scripts); history "
+        "families: every ordered pair (thorough: triple) of calls of a per-injector menu is made inside ONE execution, "
+        "by one injector object or by a fresh object per call, every call judged by the complete oracle; process-level "
+        "state of menelaus.injection is put back to its imported value before every execution",
         "bounds": {
             "injectors": list(INJECTORS),
             "containers": CONTAINERS,
@@ -1044,12 +1404,28 @@ def describe(tier):
             "0..2 + (0,3),(3,1),(3,3); level 0: 7 pairs; join target: a new class / (level>=1) class_1 itself",
             "shift": {"shift_factor": [-1, 0.5], "alpha": ["default", 0.25]},
             "brownian_x0": [0, 2, -0.5],
-            "probability_vectors": PROBS,
+            "probability_vectors": PROBS[:PROBS_EVERYWHERE],
+            "probability_vectors_only_for_windows_lacking_a_listed_class_of_the_data": PROBS[PROBS_EVERYWHERE:],
             "dirichlet_alpha": ALPHAS,
             "dirichlet_answers": DIRICHLET_MENU,
             "cover_sample_sizes": "0..n+1",
             "rng_caps_meaning": "[c0, c1]: all index vectors of a resample are enumerated while |support|^window <= c0, "
             "all ordered samples of a group while their number <= c1, a fixed menu of 3-5 answers beyond",
+            "histories": {
+                "depth": "2 calls (all ordered pairs of the menu)" + (
+                    "; 3 calls (all ordered triples of the menu restricted to the ndarray data set)" if tier == "thorough" else ""),
+                "sharing": "same: one injector object makes all calls (every pair); fresh: a new object per call (pairs "
+                "of the ndarray calls; triples: all)",
+                "rows": HIST_N, "label_vectors": HIST_LAB,
+                "data_sets(container, columns, label column, cell pattern)": {
+                    i: HIST_SPECS[i] + (HIST_THOROUGH_EXTRA.get(i, []) if tier == "thorough" else []) for i in INJECTORS},
+                "windows": HIST_WINDOWS, "windows_noise": HIST_WINDOWS_NOISE,
+                "arguments": {i: hist_args(i, 0)[1] for i in INJECTORS},
+                "seeds": "random_state in {None, r, r+1}, r derived from VERIF_SEED (shown for VERIF_SEED=0)",
+                "menu_sizes": {i: len(hist_menu(i, 0, tier)) for i in INJECTORS},
+                "rng": "one scripted answer per resample / group sample / Dirichlet draw, +-1 steps of unseeded walks "
+                "fully enumerated over the whole history",
+            },
         },
         "explanation": "states = distinct calls (RNG script not counted), transitions = executions that passed the oracle, "
         "traces_validated_against_impl = executions (call x answer script), each compared with the plain-Python "
@@ -1062,8 +1438,17 @@ def describe(tier):
             "'class frequencies follow the requested probabilities' is decided on the weight vector handed to the "
             "generator (mass p_c on class c when every listed class occurs in the window and the request is satisfiable), "
             "not on empirical frequencies",
-            "a listed class that is absent from the window, or an unsatisfiable request, only requires a valid weight "
-            "vector over rows of the window",
+            "a listed class that is absent from the window (request otherwise satisfiable): its probability 'is "
+            "uniformly divided into the remaining classes in the window' (docstring) — the weights must give every class "
+            "of the window its own probability (listed: as requested, un-listed: uniform share of 1 - sum) plus either an "
+            "equal share per class or an equal share per row of the missing probability (the two readings of "
+            "'uniformly'; they coincide for classes of equal size; the pinned implementation follows the per-row one)",
+            "an unsatisfiable request (sums to less than 1 and no un-listed class in the window) only requires a valid "
+            "weight vector over rows of the window",
+            "state kept by the code under test at process level is not itself a violation; it is reset between "
+            "executions (counter note_process_level_state_put_back) and its effect is judged inside the histories. "
+            "Only state reachable from the modules menelaus.injection.* as imported is reset",
+            "numpy's global generator is seeded with a constant derived from VERIF_SEED before every call into menelaus",
             "documented ValueErrors (probabilities above 1, classes that do not occur in the data, a group smaller than "
             "the requested sample) are tolerated, never required",
             "dtype of the returned cells and the DataFrame row index are not part of the property; cells are compared by value",
